@@ -52,14 +52,16 @@ GROUPS = dict(
             nxos=["10 host 10.1.1.1", "20 10.2.0.0/16", "30 10.3.0.0 0.0.255.0"]),
     G2=dict(ios=["10.9.9.0 255.255.255.0"], nxos=["10.9.9.0/24"]),
     # the same NAME as G1 with other members (never in one configuration with G1)
-    G1b=dict(ios=["host 10.7.7.7"], nxos=["10.7.7.0/24", "host 10.7.8.1"]),
+    # (NX-OS members without sequence numbers, one of them a non-contiguous wildcard)
+    G1b=dict(ios=["host 10.7.7.7"], nxos=["10.7.7.0/24", "host 10.7.8.1", "10.4.0.5 0.0.255.0"]),
 )
 GROUP_CUBES = dict(
     G1=dict(ios=[(S.ip2int("10.1.1.1"), 0), (S.ip2int("10.2.0.0"), 0xFFFF)],
             nxos=[(S.ip2int("10.1.1.1"), 0), (S.ip2int("10.2.0.0"), 0xFFFF),
                   (S.ip2int("10.3.0.0"), 0xFF00)]),
     G2=dict(ios=[(S.ip2int("10.9.9.0"), 255)], nxos=[(S.ip2int("10.9.9.0"), 255)]),
-    G1b=dict(ios=[(S.ip2int("10.7.7.7"), 0)], nxos=[(S.ip2int("10.7.7.0"), 255), (S.ip2int("10.7.8.1"), 0)]),
+    G1b=dict(ios=[(S.ip2int("10.7.7.7"), 0)],
+             nxos=[(S.ip2int("10.7.7.0"), 255), (S.ip2int("10.7.8.1"), 0), (S.ip2int("10.4.0.5"), 0xFF00)]),
 )
 INTERFACES = dict(
     I1=["ip address 10.0.1.1 255.255.255.0", "ip access-group A in"],
@@ -71,7 +73,8 @@ INTERFACES = dict(
 BIND = dict(I1=[("A", "in")], I2=[("A", "in"), ("B", "out")], I3=[("B", "in"), ("B", "out")], I4=[],
             I5=[("A", "in")])
 # names as they appear in the configuration (punctuation is legal in ACL names)
-REAL = dict(A="A", B="B.v2:x", S="S-1_x")
+# ... and a name may begin with the letters of a type keyword
+REAL = dict(A="A", B="extended.v2:x", S="standard-1_x")
 SECTIONS = ["A", "B", "S", "G1", "G2", "G1b", "I1", "I2", "I3", "I4", "I5", "N_line", "N_nested", "N_bang",
             "N_vty"]
 
